@@ -214,6 +214,8 @@ pub struct CodegenContext {
 
     symbols: SymbolTable<Symbol>,
     undefined: HashSet<UndefinedSymbol>,
+    /// Symbols that are defined, but got a different value than they had in the previous pass
+    changed: HashSet<UndefinedSymbol>,
     current_scope: IdentifierPath,
     current_scope_nx: SymbolIndex,
 
@@ -265,6 +267,7 @@ impl CodegenContext {
             functions: HashMap::new(),
             symbols: SymbolTable::default(),
             undefined: HashSet::new(),
+            changed: HashSet::new(),
             current_scope: IdentifierPath::empty(),
             current_scope_nx: SymbolIndex::new(0),
             next_macro_scope_id: 0,
@@ -358,6 +361,7 @@ impl CodegenContext {
 
         log::trace!("\n* NEXT PASS ({}) *", self.pass_idx);
         self.segments.values_mut().for_each(|s| s.reset());
+        self.changed.clear();
         self.test_elements.clear();
         self.source_map.clear();
     }
@@ -454,7 +458,7 @@ impl CodegenContext {
         // Variables don't require a new pass, since if they update somewhere in the assembly process
         // they would keep triggering new passes
         if maybe_require_new_pass && ty != SymbolType::Variable {
-            self.undefined.insert(UndefinedSymbol {
+            self.changed.insert(UndefinedSymbol {
                 scope_nx: self.current_scope_nx,
                 id,
                 span,
@@ -1545,6 +1549,9 @@ pub fn codegen(
     #[cfg(not(test))]
     const MAX_ITERATIONS: usize = usize::MAX;
 
+    // The maximum number of passes in which symbols are allowed to keep changing their value
+    const MAX_UNSTABLE_PASSES: usize = 40;
+
     let mut prev_undefined = HashSet::new();
     let mut prev_errors = Diagnostics::default().with_code_map(&ctx.tree.code_map);
 
@@ -1591,9 +1598,35 @@ pub fn codegen(
 
             // If there were no other errors, then we should see if there was anything undefined.
             if errors.is_empty() {
-                // Nothing undefined anymore? Then we're done!
-                if ctx.undefined.is_empty() {
+                // Nothing undefined anymore and all symbols kept their value? Then we're done!
+                if ctx.undefined.is_empty() && ctx.changed.is_empty() {
                     break;
+                } else if !ctx.changed.is_empty() {
+                    // Some symbols still moved in this pass (e.g. because an instruction went from zero-page to absolute),
+                    // so we need another pass. That doesn't make them undefined, but we shouldn't go on forever either.
+                    if ctx.pass_idx >= MAX_UNSTABLE_PASSES {
+                        let errors = ctx
+                            .changed
+                            .iter()
+                            .sorted_by_key(|k| k.id.to_string())
+                            .map(|item| {
+                                let mut diag = Diagnostic::error().with_message(format!(
+                                    "the value of '{}' did not stabilize after {} passes",
+                                    item.id, MAX_UNSTABLE_PASSES
+                                ));
+                                if let Some(span) = item.span {
+                                    diag = diag.with_labels(vec![span.to_label()]);
+                                }
+
+                                diag
+                            })
+                            .collect_vec();
+
+                        let e = Diagnostics::from(errors).with_code_map(&ctx.tree.code_map);
+                        return (Some(ctx), e);
+                    }
+
+                    prev_undefined = std::mem::take(&mut ctx.undefined);
                 } else {
                     // If the same symbols are undefined that were undefined in the previous pass, they are truly undefined.
                     if ctx.undefined == prev_undefined {
